@@ -794,4 +794,103 @@ Lemma canon_size_all c : Canon c -> forall indent inline bytes, SER c indent inl
   (depth c <= List.length bytes)%nat /\ (width c <= List.length bytes)%nat.
 Proof. intros CA. apply (canon_size (depth c) c (le_n _) CA). Qed.
 
+(* ---------- serializing a canonical tree returns a text (no STRING_TABLE index panic) ---------- *)
+Lemma children_items ty mode : forall l prev pre, ChildrenOk ty mode prev pre l ->
+  (forall c, In (inl c) l -> Canon c) /\ (forall v, In (inr v) l -> TextOk ty v).
+Proof.
+  induction l as [|item l IH]; intros prev pre CK; [split; intros ? []|].
+  inversion CK as [|? ? ? ? c rest idx _ _ _ CA CK1|? ? ? ? v rest TO _ CK1]; subst; destruct (IH _ _ CK1) as [A B]; split.
+  - intros c0 [E|H]; [injection E as <-; exact CA|exact (A _ H)].
+  - intros v0 [E|H]; [discriminate E|exact (B _ H)].
+  - intros c0 [E|H]; [discriminate E|exact (A _ H)].
+  - intros v0 [E|H]; [injection E as <-; exact TO|exact (B _ H)].
+Qed.
+
+Lemma canon_ser_total : forall d c, (depth c <= d)%nat -> Canon c -> forall indent inline, exists bytes, SER c indent inline = Val bytes.
+Proof.
+  induction d as [|d IH]; intros c DC CA indent inline.
+  { destruct c. rewrite depth_node in DC. lia. }
+  destruct CA as [name ty attrs content cm nm mode named CMO (TS & CN & FB) [AF AREQ] CM SH CK NV NAMED].
+  destruct (ser_attrs_total T tab_at tab_en check_fn float_fmt float_parse ver ty attrs AF) as (ats & SA & _ & _).
+  rewrite depth_node in DC. rewrite ser_elem_eq, TS, SA. cbn [unwrap bind]. cbv zeta.
+  destruct (children_items ty mode content [] [] CK) as [KC KT].
+  destruct content as [|first rest]; [eauto|]. remember (first :: rest) as content eqn:EC.
+  rewrite CM. cbn [bind].
+  assert (ITEMS : forall i b l, (forall c0, In (inl c0) l -> Canon c0 /\ (depth c0 <= d)%nat) -> (forall v, In (inr v) l -> TextOk ty v) ->
+            exists body, ser_items SCD (fun sub => SER sub i b) l = Val body).
+  { intros i b l. induction l as [|[c0|v0] l IHl]; intros HC HT; [exists []; reflexivity| |].
+    - destruct (HC c0 (or_introl eq_refl)) as [CA0 D0]. destruct (IH c0 D0 CA0 i b) as (b0 & E0).
+      destruct IHl as (bl & El); [intros; apply HC; right; assumption|intros; apply HT; right; assumption|].
+      exists (b0 ++ bl).
+      change (ser_items SCD (fun sub => SER sub i b) (inl c0 :: l)) with
+        (bind (SER c0 i b) (fun a => bind (ser_items SCD (fun sub => SER sub i b) l) (fun b1 => Val (a ++ b1)))).
+      rewrite E0. cbn [bind]. rewrite El. reflexivity.
+    - destruct (HT v0 (or_introl eq_refl)) as (cs & vb & isr & _ & _ & _ & SV & _).
+      destruct IHl as (bl & El); [intros; apply HC; right; assumption|intros; apply HT; right; assumption|].
+      exists (vb ++ bl).
+      change (ser_items SCD (fun sub => SER sub i b) (inr v0 :: l)) with
+        (bind (SCD v0) (fun a => bind (ser_items SCD (fun sub => SER sub i b) l) (fun b1 => Val (a ++ b1)))).
+      rewrite SV. cbn [bind]. rewrite El. reflexivity. }
+  assert (SUBS : forall i b l, (forall c0, In (inl c0) l -> Canon c0 /\ (depth c0 <= d)%nat) ->
+            exists body, ser_subs (fun sub => SER sub i b) l = Val body).
+  { intros i b l. induction l as [|[c0|v0] l IHl]; intros HC; [exists []; reflexivity| |].
+    - destruct (HC c0 (or_introl eq_refl)) as [CA0 D0]. destruct (IH c0 D0 CA0 i b) as (b0 & E0).
+      destruct IHl as (bl & El); [intros; apply HC; right; assumption|].
+      exists (b0 ++ bl).
+      change (ser_subs (fun sub => SER sub i b) (inl c0 :: l)) with
+        (bind (SER c0 i b) (fun a => bind (ser_subs (fun sub => SER sub i b) l) (fun b1 => Val (a ++ b1)))).
+      rewrite E0. cbn [bind]. rewrite El. reflexivity.
+    - destruct IHl as (bl & El); [intros; apply HC; right; assumption|]. exists bl. exact El. }
+  assert (HC : forall c0, In (inl c0) content -> Canon c0 /\ (depth c0 <= d)%nat).
+  { intros c0 H0. split; [exact (KC _ H0)|pose proof (maxd_in _ _ H0); lia]. }
+  destruct (mode =? MCharacters).
+  - assert (FB1 : exists body, match first with inr cd => SCD cd | inl _ => Val [] end = Val body).
+    { destruct first as [c0|v0]; [eauto|]. destruct (KT v0 ltac:(rewrite EC; left; reflexivity)) as (cs & vb & isr & _ & _ & _ & SV & _). eauto. }
+    destruct FB1 as (body & ->). cbn [bind]. eauto.
+  - destruct (mode =? MMixed).
+    + destruct (ITEMS (S indent) true content HC KT) as (body & ->). cbn [bind]. eauto.
+    + destruct (SUBS (S indent) false content HC) as (body & ->). cbn [bind]. eauto.
+Qed.
+
+Lemma node_ser_total name ty attrs content cm nm mode ats indent inline :
+  to_str tab_el name = Some nm -> SAT attrs = Val ats -> content_mode T ty = Val mode ->
+  (forall c, In (inl c) content -> Canon c) -> (forall v, In (inr v) content -> TextOk ty v) ->
+  exists bytes, SER (ENode name ty attrs content cm) indent inline = Val bytes.
+Proof.
+  intros TS SA CM KC KT. rewrite ser_elem_eq, TS, SA. cbn [unwrap bind]. cbv zeta.
+  destruct content as [|first rest]; [eauto|]. remember (first :: rest) as content eqn:EC.
+  rewrite CM. cbn [bind].
+  assert (ITEMS : forall i b l, (forall c0, In (inl c0) l -> Canon c0) -> (forall v, In (inr v) l -> TextOk ty v) ->
+            exists body, ser_items SCD (fun sub => SER sub i b) l = Val body).
+  { intros i b l. induction l as [|[c0|v0] l IHl]; intros HC HT; [exists []; reflexivity| |].
+    - destruct (canon_ser_total (depth c0) c0 (le_n _) (HC c0 (or_introl eq_refl)) i b) as (b0 & E0).
+      destruct IHl as (bl & El); [intros; apply HC; right; assumption|intros; apply HT; right; assumption|].
+      exists (b0 ++ bl).
+      change (ser_items SCD (fun sub => SER sub i b) (inl c0 :: l)) with
+        (bind (SER c0 i b) (fun a => bind (ser_items SCD (fun sub => SER sub i b) l) (fun b1 => Val (a ++ b1)))).
+      rewrite E0. cbn [bind]. rewrite El. reflexivity.
+    - destruct (HT v0 (or_introl eq_refl)) as (cs & vb & isr & _ & _ & _ & SV & _).
+      destruct IHl as (bl & El); [intros; apply HC; right; assumption|intros; apply HT; right; assumption|].
+      exists (vb ++ bl).
+      change (ser_items SCD (fun sub => SER sub i b) (inr v0 :: l)) with
+        (bind (SCD v0) (fun a => bind (ser_items SCD (fun sub => SER sub i b) l) (fun b1 => Val (a ++ b1)))).
+      rewrite SV. cbn [bind]. rewrite El. reflexivity. }
+  assert (SUBS : forall i b l, (forall c0, In (inl c0) l -> Canon c0) -> exists body, ser_subs (fun sub => SER sub i b) l = Val body).
+  { intros i b l. induction l as [|[c0|v0] l IHl]; intros HC; [exists []; reflexivity| |].
+    - destruct (canon_ser_total (depth c0) c0 (le_n _) (HC c0 (or_introl eq_refl)) i b) as (b0 & E0).
+      destruct IHl as (bl & El); [intros; apply HC; right; assumption|].
+      exists (b0 ++ bl).
+      change (ser_subs (fun sub => SER sub i b) (inl c0 :: l)) with
+        (bind (SER c0 i b) (fun a => bind (ser_subs (fun sub => SER sub i b) l) (fun b1 => Val (a ++ b1)))).
+      rewrite E0. cbn [bind]. rewrite El. reflexivity.
+    - destruct IHl as (bl & El); [intros; apply HC; right; assumption|]. exists bl. exact El. }
+  destruct (mode =? MCharacters).
+  - assert (FB1 : exists body, match first with inr cd => SCD cd | inl _ => Val [] end = Val body).
+    { destruct first as [c0|v0]; [eauto|]. destruct (KT v0 ltac:(rewrite EC; left; reflexivity)) as (cs & vb & isr & _ & _ & _ & SV & _). eauto. }
+    destruct FB1 as (body & ->). cbn [bind]. eauto.
+  - destruct (mode =? MMixed).
+    + destruct (ITEMS (S indent) true content KC KT) as (body & ->). cbn [bind]. eauto.
+    + destruct (SUBS (S indent) false content KC) as (body & ->). cbn [bind]. eauto.
+Qed.
+
 End Elem.
